@@ -88,7 +88,7 @@ Untouched(e) == (Has(e, "Pafter") => e.Pafter = e.P) /\ (Has(e, "Qafter") => e.Q
 
 (* ---- replies -------------------------------------------------------------------- *)
 FixedOps == {"PairFixedQ", "MillerLoopFixedQFE", "PairingCheckFixedQ"}
-ValueOps == {"Pair", "MillerLoopFE", "MillerLoopFE2", "MillerLoopDirectFE", "PairFixedQ", "MillerLoopFixedQFE"}
+ValueOps == {"Pair", "MillerLoopFE", "MillerLoopFE2", "MillerLoopFEeach", "MillerLoopDirectFE", "PairFixedQ", "MillerLoopFixedQFE"}
 CheckOps == {"PairingCheck", "PairingCheckFixedQ"}
 
 Bs(e) == IF e.op \in FixedOps THEN LinesBs(e.lid) ELSE Red(e.b)
